@@ -83,8 +83,59 @@ Lemma cinit_inv t0 : CInv (cinit t0).
 Proof. split; intros k j H; destruct H. Qed.
 
 (* ---- replay ---- *)
-Lemma accepted_filter s h : accepted s h = map sc_chunk (filter (fun c => accepts s (sc_chan c) (sc_key c)) h).
-Proof. reflexivity. Qed.
+Open Scope N_scope.
+Lemma seq_ok_after l n : seq_ok (Some l) n = true <-> seq_after l n.
+Proof.
+  unfold seq_ok, seq_after. rewrite orb_true_iff, andb_true_iff, N.ltb_lt, N.leb_le, N.ltb_lt. tauto.
+Qed.
+
+Fixpoint incr_from (last : option N) (l : list N) : Prop :=
+  match l with [] => True | a :: r => seq_ok last a = true /\ incr_from (Some a) r end.
+
+Lemma accept_seq_incr h : forall last, incr_from last (map ck_seq (accept_seq last h)).
+Proof.
+  induction h as [|[v c] r IH]; intros last; cbn [accept_seq map incr_from]; [exact I|].
+  destruct v; cbn [andb]; [|apply IH]. destruct (seq_ok last (ck_seq c)) eqn:E; [|apply IH].
+  cbn [map incr_from]. split; [exact E|apply IH].
+Qed.
+
+Lemma incr_from_increasing l : forall last, incr_from last l -> increasing l.
+Proof.
+  induction l as [|a [|b r] IH]; intros last H; cbn [increasing]; try exact I.
+  destruct H as [_ H]. split; [apply seq_ok_after; apply H | apply (IH (Some a)); exact H].
+Qed.
+
+(* a numbering that follows the rule passes the check unchanged *)
+Lemma seq_next_ok s s' : seq_next s s' -> seq_ok (Some s) s' = true.
+Proof. intros H. apply seq_ok_after. unfold seq_next, seq_after in *. lia. Qed.
+
+Lemma accept_seq_chain cs : forall last,
+  (forall c r, cs = c :: r -> seq_ok last (ck_seq c) = true) -> chain (map ck_seq cs) ->
+  accept_seq last (map (fun c => (true, c)) cs) = cs.
+Proof.
+  induction cs as [|c cs IH]; intros last Hhd Hc; [reflexivity|].
+  cbn [map accept_seq andb]. rewrite (Hhd c cs eq_refl). f_equal. apply IH.
+  - intros c' r' ->. cbn [map chain] in Hc. apply seq_next_ok. apply Hc.
+  - destruct cs; [exact I|]. cbn [map chain] in Hc |- *. apply Hc.
+Qed.
+
+Lemma seq_filter_chain cs : chain (map ck_seq cs) -> seq_filter cs = cs.
+Proof. intros H. apply accept_seq_chain; [reflexivity | exact H]. Qed.
+
+(* below the roll-over zone the accepted numbers are strictly increasing, hence pairwise distinct *)
+Lemma incr_from_sorted l : forall last, incr_from last l -> Forall (fun x => x < 4294966271) l ->
+  Sorted N.lt l /\ (forall x, last = Some x -> x < 4294966271 -> Forall (N.lt x) l).
+Proof.
+  induction l as [|a r IH]; intros last H Hb; [split; [constructor|intros; constructor]|].
+  destruct H as [H1 H2]. inversion Hb as [|? ? Ha Hr]; subst.
+  destruct (IH (Some a) H2 Hr) as [Hs Hf]. specialize (Hf a eq_refl Ha).
+  split.
+  - constructor; [exact Hs|]. destruct r; constructor. inversion Hf; assumption.
+  - intros x -> Hx. apply seq_ok_after in H1. unfold seq_after in H1.
+    assert (x < a) by lia. constructor; [assumption|].
+    rewrite Forall_forall in *. intros y Hy. specialize (Hf y Hy). lia.
+Qed.
+Close Scope N_scope.
 
 Lemma filter_StronglySorted {A} (R : A -> A -> Prop) f l : StronglySorted R l -> StronglySorted R (filter f l).
 Proof.
